@@ -2,6 +2,7 @@
 from __future__ import annotations
 
 import ast
+import os
 import re
 from typing import Dict, List, Optional, Set, Tuple
 
@@ -55,6 +56,110 @@ IDENT_SUFFIX = ("short_name", "_snref", "_snpathref", "ref_id", "local_id", "doc
                 "_id", "category", "semantic", "value", "parameter_type", "dct_type", "id")
 
 
+def _nested_complex_values(prog: Program, run: Run) -> None:
+    """Relational rule over two sites. Writer: macro printComplexValue(cv, tag_name=<default>)
+    calls itself for nested values; the set W of element names a NESTED value can get is the
+    default (no second argument), the literal passed, or -- when the macro's own parameter is
+    passed on -- the default plus every literal any call site passes. Parser:
+    create_complex_value_from_et descends into a child when the chain over `el.tag` ends in an
+    `else` (any name) or names it explicitly (set P). Violation iff W is not within P. Shapes
+    that are not recognised are not decided (no alarm)."""
+    import jinja2
+    from jinja2 import nodes as jn
+    R = "C11.R14"
+    C = "printComplexValue / create_complex_value_from_et"
+    tdir = os.path.join(prog.repo, "odxtools", "templates")
+    env = jinja2.Environment()
+    macro = None
+    literals: Set[str] = set()
+    for root, _d, files in os.walk(tdir):
+        for fn in files:
+            if not fn.endswith(".jinja2"):
+                continue
+            try:
+                tree = env.parse(open(os.path.join(root, fn), encoding="utf-8").read())
+            except jinja2.TemplateSyntaxError:
+                continue
+            for m in tree.find_all(jn.Macro):
+                if m.name == "printComplexValue":
+                    macro = m
+            for c in tree.find_all(jn.Call):
+                nm = c.node.name if isinstance(c.node, jn.Name) else (
+                    c.node.attr if isinstance(c.node, jn.Getattr) else None)
+                if nm == "printComplexValue":
+                    a = c.args[1] if len(c.args) > 1 else next(
+                        (k.value for k in c.kwargs if k.key == "tag_name"), None)
+                    if isinstance(a, jn.Const) and isinstance(a.value, str):
+                        literals.add(a.value)
+    f = prog.func("odxtools.complexcomparam:create_complex_value_from_et")
+    if macro is None or len(macro.args) < 2 or len(macro.defaults) < 1 or not isinstance(
+            macro.defaults[-1], jn.Const):
+        run.ok(R, C, "writer macro not of the recognised recursive form: not decided", f.loc)
+        return
+    pname = macro.args[1].name
+    default = macro.defaults[-1].value
+    W: Set[str] = set()
+    for c in macro.find_all(jn.Call):
+        if isinstance(c.node, jn.Name) and c.node.name == "printComplexValue":
+            a = c.args[1] if len(c.args) > 1 else next(
+                (k.value for k in c.kwargs if k.key == pname), None)
+            if a is None:
+                W.add(default)
+            elif isinstance(a, jn.Const):
+                W.add(str(a.value))
+            elif isinstance(a, jn.Name) and a.name == pname:
+                W |= {default} | literals
+            else:
+                run.ok(R, C, "nested element name is computed: not decided", f.loc)
+                return
+    # parser: the if / elif chain over the child's tag inside the loop
+    P: Optional[Set[str]] = None
+    for loop in [x for x in ast.walk(f.node) if isinstance(x, ast.For)]:
+        for st in loop.body:
+            if not isinstance(st, ast.If):
+                continue
+            acc: Set[str] = set()
+            cur: Optional[ast.stmt] = st
+            any_tag = False
+            while isinstance(cur, ast.If):
+                rec = any(isinstance(y, ast.Call) and call_name(y) == f.name
+                          for b in cur.body for y in ast.walk(b))
+                t = cur.test
+                if rec and isinstance(t, ast.Compare) and len(t.ops) == 1 and isinstance(
+                        t.ops[0], ast.Eq) and isinstance(t.comparators[0], ast.Constant):
+                    acc.add(t.comparators[0].value)
+                elif rec:
+                    P = None
+                    acc = set()
+                    any_tag = True
+                    break
+                rest = cur.orelse
+                if len(rest) == 1 and isinstance(rest[0], ast.If):
+                    cur = rest[0]
+                else:
+                    if any(isinstance(y, ast.Call) and call_name(y) == f.name
+                           for b in rest for y in ast.walk(b)):
+                        any_tag = True
+                    cur = None
+            if any_tag:
+                run.ok(R, C, f"the parser descends into every other child; nested names written: "
+                       f"{sorted(W)}", f.loc)
+                return
+            if acc:
+                P = acc
+    if P is None or not W:
+        run.ok(R, C, "parser / writer recursion not of the recognised form: not decided", f.loc)
+        return
+    if W <= P:
+        run.ok(R, C, f"nested names written {sorted(W)} are all parsed {sorted(P)}", f.loc)
+    else:
+        run.violation(R, C, "nested-tag-not-parsed",
+                      f"the writer macro emits nested complex values as {sorted(W - P)} (its "
+                      f"recursive call hands `{pname}` on; call sites pass {sorted(literals)}), "
+                      f"but the parser only descends into {sorted(P)} children: nested values "
+                      "are dropped silently when a written file is read back", f.loc)
+
+
 def check(prog: Program, run: Run) -> None:
     run.rule("C11.R0", "the writer is well formed: templates parse, macro calls and globals "
              "resolve", floor=150)
@@ -75,6 +180,9 @@ def check(prog: Program, run: Run) -> None:
              "returns int(text, 0) whenever that succeeds; float() is only the fallback",
              floor=2)
     _exact_integers(prog, run)
+    run.rule("C11.R14", "nested complex values: every element name the recursive writer macro "
+             "can emit for a nested value is one the recursive parser descends into", floor=1)
+    _nested_complex_values(prog, run)
     tm = TemplateModel(prog.repo)
     pt = parser_table(prog)
     run.info("templates", len(tm.templates))
